@@ -518,4 +518,3 @@ func genC02(r *vh.Runner) {
 	r.Case("enumeration-complete", lens, func(c *vh.Case) { r.Count("exhaustive_spaces_completed", 1) })
 }
 
-func genC19(r *vh.Runner) {}
